@@ -247,12 +247,29 @@ func vh_C10_threshold(a []int) {
 // satisfies *that* step's constraints (oracle per step and certificate).
 // a = {#links per step, 1: a signature may carry its signer's certificate, 2: any functionary's certificate}
 func vh_C02_foreignstep(a []int) {
-	nl := a[0]
 	withCerts := 0
 	if len(a) > 1 {
 		withCerts = a[1]
 	}
-	layout := Layout{Keys: map[string]Key{}}
+	layout, md, auth := vhForeignScenario(a[0], withCerts, false)
+	want := [2]bool{}
+	for s := 0; s < 2; s++ {
+		for i := 0; i < 3; i++ {
+			if ok, present := auth[layout.Steps[s].Name+"/"+vhFID[i]]; present {
+				want[s] = vOr(want[s], ok)
+			}
+		}
+	}
+	_, err := VerifyLinkSignatureThesholds(layout, md, nil, nil)
+	vObserve("foreignstep", err == nil)
+	vAssert("C02.a-link-counts-only-for-the-step-its-signer-is-authorized-for", (err == nil) == (want[0] && want[1]))
+	vReach("C02.end")
+}
+
+// vhForeignScenario: two steps with their own pubkeys and constraint oracles; nl links per step, each signed
+// by a symbolic functionary.  auth[step/keyid] tells whether that functionary's link counts for that step.
+func vhForeignScenario(nl, withCerts int, sublayouts bool) (Layout, map[string]map[string]Metadata, map[string]bool) {
+	layout := Layout{Type: "layout", Keys: map[string]Key{}}
 	for i := 0; i < 3; i++ {
 		layout.Keys[vhFID[i]] = vhFKey(i)
 	}
@@ -263,7 +280,7 @@ func vh_C02_foreignstep(a []int) {
 	s2 := Step{Type: "step", Threshold: 1, PubKeys: []string{vhFID[1], vIteStr(both, vhFID[2], "00000001")}, SupplyChainItem: SupplyChainItem{Name: "s2"}, CertificateConstraints: cc}
 	layout.Steps = []Step{s1, s2}
 	md := map[string]map[string]Metadata{}
-	want := [2]bool{}
+	auth := map[string]bool{}
 	for s := 0; s < 2; s++ {
 		per := map[string]Metadata{}
 		for l := 0; l < nl; l++ {
@@ -278,19 +295,20 @@ func vh_C02_foreignstep(a []int) {
 			case 2:
 				cert = vPick("cert", "", vhFCert[0], vhFCert[1], vhFCert[2])
 			}
-			m := &vhMeta{tag: "S" + strconv.Itoa(s) + "L" + strconv.Itoa(l), payload: Link{Type: "link"}, sigs: []Signature{{KeyID: vhFID[signer], Sig: "00", Certificate: cert}}}
+			var payload any = Link{Type: "link"}
+			if sublayouts && vBool("is-layout") {
+				payload = Layout{Type: "layout"}
+			}
+			m := &vhMeta{tag: "S" + strconv.Itoa(s) + "L" + strconv.Itoa(l), payload: payload, sigs: []Signature{{KeyID: vhFID[signer], Sig: "00", Certificate: cert}}}
 			per[vhFID[signer]] = m
 			valid := vUFBool("valid", m.tag, "0", vhFPub[signer])
 			byKey := signer == s || (signer == 2 && both)
 			byCert := vAnd(vEqStr(cert, vhFCert[signer]), vAnd(vUFBool("loads", vhFCert[signer]), vUFBool("constraint-ok", layout.Steps[s].Name, vhFCert[signer])))
-			want[s] = vOr(want[s], vAnd(valid, vOr(byKey, byCert)))
+			auth[layout.Steps[s].Name+"/"+vhFID[signer]] = vAnd(valid, vOr(byKey, byCert))
 		}
 		md[layout.Steps[s].Name] = per
 	}
-	_, err := VerifyLinkSignatureThesholds(layout, md, nil, nil)
-	vObserve("foreignstep", err == nil)
-	vAssert("C02.a-link-counts-only-for-the-step-its-signer-is-authorized-for", (err == nil) == (want[0] && want[1]))
-	vReach("C02.end")
+	return layout, md, auth
 }
 
 func init() { vhRegister("vh_C02_foreignstep", vh_C02_foreignstep) }
